@@ -2,27 +2,40 @@
 # Must-fail corpus: every patch is a property-breaking edit; the named property check must report a VIOLATION
 # on a scratch copy with the patch applied (and must pass on the unpatched copy).
 # usage: selftest/run.sh [pattern]      expectations in selftest/expect.tsv: <patch>\t<property>\t<obligation substring>
+# Three patches are checked at a time (scratch copies under /tmp, removed as soon as each is done).
 set -u
 cd "$(dirname "$0")/.."
 . ./env.sh
 pat="${1:-}"
-fail=0
+res=$(mktemp -d /tmp/govc-selftest-res-XXXX)
+one() {
+  local patch="$1" prop="$2" want="$3" n="$4"
+  local tmp out
+  tmp=$(mktemp -d /tmp/govc-selftest-XXXX)
+  rsync -a --exclude .git /repo/ "$tmp/"
+  if ! (cd "$tmp" && patch -p1 -s < "/verif/selftest/$patch" >/dev/null 2>&1); then
+    if [ -n "${VERIF_SELFTEST_SKIP_UNAPPLICABLE:-}" ]; then echo "SELFTEST $patch: skipped (does not apply to this tree)"; else echo "SELFTEST $patch: patch does not apply"; echo fail > "$res/$n.fail"; fi
+    rm -rf "$tmp"; return
+  fi
+  out=$(bin/govc check -repo "$tmp" -prop "$prop" -verif /verif -outdir "$tmp.out" -noevidence -noretry 2>&1 </dev/null)
+  if echo "$out" | grep -q "^VIOLATION property=$prop" && echo "$out" | grep -q "FAILED-OBLIGATION: .*$want"; then
+    echo "SELFTEST $patch: caught ($prop, $want)"
+  else
+    echo "SELFTEST $patch: MISSED (wanted $prop / $want)"; echo "$out" | tail -5; echo fail > "$res/$n.fail"
+  fi
+  rm -rf "$tmp" "$tmp.out"
+}
+n=0
 while IFS=$'\t' read -r patch prop want <&3; do
   [ -z "$patch" ] && continue
   case "$patch" in \#*) continue;; esac
   [ -n "$pat" ] && [[ "$patch" != *$pat* ]] && continue
-  tmp=$(mktemp -d /tmp/govc-selftest-XXXX)
-  rsync -a --exclude .git /repo/ "$tmp/"
-  if ! (cd "$tmp" && patch -p1 -s < "/verif/selftest/$patch" >/dev/null 2>&1); then
-    if [ -n "${VERIF_SELFTEST_SKIP_UNAPPLICABLE:-}" ]; then echo "SELFTEST $patch: skipped (does not apply to this tree)"; else echo "SELFTEST $patch: patch does not apply"; fail=1; fi
-    rm -rf "$tmp"; continue
-  fi
-  out=$(bin/govc check -repo "$tmp" -prop "$prop" -verif /verif -outdir "/tmp/govc-selftest-out-$$" -noevidence 2>&1 </dev/null)
-  if echo "$out" | grep -q "^VIOLATION property=$prop" && echo "$out" | grep -q "FAILED-OBLIGATION: .*$want"; then
-    echo "SELFTEST $patch: caught ($prop, $want)"
-  else
-    echo "SELFTEST $patch: MISSED (wanted $prop / $want)"; echo "$out" | tail -5; fail=1
-  fi
-  rm -rf "$tmp" "/tmp/govc-selftest-out-$$"
+  n=$((n+1))
+  one "$patch" "$prop" "$want" "$n" > "$res/$n.out" 2>&1 </dev/null &
+  while [ "$(jobs -rp | wc -l)" -ge 3 ]; do wait -n; done
 done 3< selftest/expect.tsv
+wait
+fail=0
+for i in $(seq 1 $n); do cat "$res/$i.out"; [ -f "$res/$i.fail" ] && fail=1; done
+rm -rf "$res"
 exit $fail
